@@ -95,10 +95,56 @@ func verifRestamp(doc map[string]any, servedBy string) map[string]any {
 	return out
 }
 
+/* a document as another host would serve it: every stamp in it names that host */
+func verifDeepRestamp(v any, servedBy string) any {
+	switch x := v.(type) {
+	case map[string]any:
+		out := map[string]any{}
+		for k, e := range x {
+			out[k] = verifDeepRestamp(e, servedBy)
+		}
+		if name, ok := out["name"].(string); ok && strings.HasPrefix(name, "STAMP_") {
+			out["name"] = "STAMP_" + servedBy
+		}
+		if published, ok := out["published"].(string); ok && strings.HasPrefix(published, "2022-02-03T04:05:") {
+			out["published"] = fmt.Sprintf("2022-02-03T04:05:%02dZ", verifHostIdx[servedBy])
+		}
+		return out
+	case []any:
+		out := make([]any, len(x))
+		for i := range x {
+			out[i] = verifDeepRestamp(x[i], servedBy)
+		}
+		return out
+	}
+	return v
+}
+
 /* the object of a legitimate activity, in one of several provenance situations */
 func (w *verifLW) object(k int) any {
 	p := fmt.Sprintf("/s%d/n%d", w.sid, k)
-	switch w.rng.Intn(7) {
+	switch w.rng.Intn(10) {
+	case 7: /* embedded copy of a note that lives on the same hostname but another port: must be re-fetched from there */
+		q := w.actor(w.A2.URL(fmt.Sprintf("/s%d/q", w.sid)), "A2")
+		w.publish(q)
+		n := w.note(w.A2.URL(p), "A2", q["id"], nil)
+		w.publish(n)
+		return verifRestamp(n, "A")
+	case 8: /* Lemmy style: the object is an inline Create that names another host and wraps a copy of
+		   that host's note; the copy is this host's word and must be re-fetched */
+		q := w.actor(w.B.URL(fmt.Sprintf("/s%d/q", w.sid)), "B")
+		w.publish(q)
+		n := w.note(w.B.URL(p), "B", q["id"], nil)
+		w.publish(n)
+		inner := w.activity(w.B.URL(p+"/activity"), "B", "Create", q["id"], n)
+		w.publish(inner)
+		return w.activity(w.B.URL(p+"/activity"), "A", "Create", q["id"], verifRestamp(n, "A"))
+	case 9: /* an inline Create without an id around a copy of another host's note */
+		q := w.actor(w.B.URL(fmt.Sprintf("/s%d/q", w.sid)), "B")
+		w.publish(q)
+		n := w.note(w.B.URL(p), "B", q["id"], nil)
+		w.publish(n)
+		return w.activity("", "A", "Create", q["id"], verifRestamp(n, "A"))
 	case 0: /* referenced note on another host, written by an actor of that host */
 		q := w.actor(w.B.URL(fmt.Sprintf("/s%d/q", w.sid)), "B")
 		w.publish(q)
@@ -306,6 +352,7 @@ type verifListingIn struct {
 	Kind    string   `json:"kind"`
 	Owner   string   `json:"owner"`
 	Classes []string `json:"classes"`
+	Place   string   `json:"place"`
 }
 
 func verifRunListing(out *verifkit.Trace, w *verifLW, in verifListingIn) {
@@ -320,7 +367,7 @@ func verifRunListing(out *verifkit.Trace, w *verifLW, in verifListingIn) {
 	w.owner, w.other = w.A.URL(ownerTarget), w.A.URL(otherTarget)
 	w.publish(w.actor(w.other, "A"))
 	entries := make([]any, len(in.Classes))
-	out.Emit(verifkit.M{"ev": "begin", "sid": w.sid, "kind": in.Kind, "owner": in.Owner, "classes": in.Classes})
+	out.Emit(verifkit.M{"ev": "begin", "sid": w.sid, "kind": in.Kind, "owner": in.Owner, "classes": in.Classes, "place": in.Place})
 	var rootURL string
 	if in.Kind == "outbox" {
 		for k, c := range in.Classes {
@@ -328,7 +375,23 @@ func verifRunListing(out *verifkit.Trace, w *verifLW, in verifListingIn) {
 		}
 		outboxID := w.A.URL(fmt.Sprintf("/s%d/outbox", w.sid))
 		outbox := map[string]any{"id": outboxID, "type": "OrderedCollection", "totalItems": len(entries)}
-		if w.rng.Intn(2) == 0 {
+		if in.Place == "foreign_anon" || in.Place == "redirect_anon" {
+			/* the listing is served by B and has no id; what it embeds is B's word */
+			foreign := fmt.Sprintf("/s%d/outbox", w.sid)
+			anon := map[string]any{"type": "OrderedCollection", "totalItems": len(entries)}
+			items := verifDeepRestamp(entries, "B")
+			if w.rng.Intn(2) == 0 {
+				anon["orderedItems"] = items
+			} else {
+				anon["first"] = map[string]any{"type": "OrderedCollectionPage", "orderedItems": items}
+			}
+			w.serve(w.B, foreign, anon)
+			outboxID = w.B.URL(foreign)
+			if in.Place == "redirect_anon" {
+				outboxID = w.A.URL(foreign)
+				w.A.Set(foreign, &verifsim.Route{Raw: []byte("HTTP/1.1 302 Found\r\nLocation: " + w.B.URL(foreign) + "\r\n\r\n")})
+			}
+		} else if w.rng.Intn(2) == 0 {
 			outbox["orderedItems"] = entries
 		} else {
 			page := map[string]any{"id": outboxID + "?page=1", "type": "OrderedCollectionPage", "orderedItems": entries, "partOf": outboxID}
@@ -339,7 +402,9 @@ func verifRunListing(out *verifkit.Trace, w *verifLW, in verifListingIn) {
 				outbox["first"] = page
 			}
 		}
-		w.publish(outbox)
+		if in.Place == "own" {
+			w.publish(outbox)
+		}
 		owner := w.actor(w.owner, "A")
 		owner["outbox"] = outboxID
 		w.publish(owner)
@@ -352,7 +417,15 @@ func verifRunListing(out *verifkit.Trace, w *verifLW, in verifListingIn) {
 		w.publish(w.actor(w.owner, "A"))
 		n := w.note(parent, "A", w.owner, nil)
 		replies := map[string]any{"id": parent + "/replies", "type": "Collection", "items": entries}
-		if w.rng.Intn(2) == 0 {
+		if in.Place == "foreign_anon" || in.Place == "redirect_anon" {
+			foreign := fmt.Sprintf("/s%d/replies", w.sid)
+			w.serve(w.B, foreign, map[string]any{"type": "Collection", "items": verifDeepRestamp(entries, "B")})
+			n["replies"] = w.B.URL(foreign)
+			if in.Place == "redirect_anon" {
+				n["replies"] = w.A.URL(foreign)
+				w.A.Set(foreign, &verifsim.Route{Raw: []byte("HTTP/1.1 302 Found\r\nLocation: " + w.B.URL(foreign) + "\r\n\r\n")})
+			}
+		} else if w.rng.Intn(2) == 0 {
 			w.publish(replies)
 			n["replies"] = replies["id"]
 		} else {
@@ -387,7 +460,7 @@ func verifRunListing(out *verifkit.Trace, w *verifLW, in verifListingIn) {
 			}
 		}
 	})
-	ev := verifkit.M{"ev": "listing", "sid": w.sid, "kind": in.Kind, "owner": in.Owner, "classes": in.Classes, "shown": shown, "panic": panicked}
+	ev := verifkit.M{"ev": "listing", "sid": w.sid, "kind": in.Kind, "owner": in.Owner, "classes": in.Classes, "shown": shown, "panic": panicked, "place": in.Place}
 	if panicked {
 		ev["what"] = what
 	}
@@ -410,6 +483,9 @@ func TestVerifListing(t *testing.T) {
 	w := &verifLW{sim: sim, rng: verifkit.Rand(), A: sim.Host("A"), B: sim.Host("B"), M: sim.Host("M")}
 	w.A2 = sim.HostLike("A2", "A")
 	for _, s := range in.Sessions {
+		if s.Place == "" {
+			s.Place = "own"
+		}
 		verifRunListing(out, w, s)
 	}
 	for i := 0; i < in.Random; i++ {
@@ -417,6 +493,10 @@ func TestVerifListing(t *testing.T) {
 		pool := in.Outbox
 		if w.rng.Intn(3) == 0 {
 			s.Kind, s.Owner, pool = "replies", "path", in.Replies
+		}
+		s.Place = "own"
+		if s.Owner == "path" && w.rng.Intn(3) == 0 {
+			s.Place = []string{"foreign_anon", "redirect_anon"}[w.rng.Intn(2)]
 		}
 		for k := 3 + w.rng.Intn(6); k > 0; k-- {
 			s.Classes = append(s.Classes, pool[w.rng.Intn(len(pool))])
